@@ -293,7 +293,7 @@ def run(ck, w):
 
     # ---- 7. lock release -------------------------------------------------------------------------------------
     o = ck.ob("C05.7a", "delete_bands returns Ok only after the lock was released successfully")
-    oks = [bb for bb, j, s in rules.agg_sites(db, "std::result::Result", "Ok")]
+    oks = [bb for bb, j, s in rules.agg_sites(db, "std::result::Result", "Ok") if s["pl"]["l"] == 0]
     order_after_success(ck, o, db, events_of(lib, db, LOCK_RELEASE), oks, "release", "return Ok")
     o = ck.ob("C05.7b", "dropping a held GarbageCollectionLock removes the lock file")
     dn = "<gc_lock::GarbageCollectionLock as std::ops::Drop>::drop"
